@@ -55,7 +55,68 @@ def generate(seed, tier, index):
         'environ': dict(common.BASE_ENV, **rng.choice([{}, {'WAYLAND_DEBUG': '0'}, {'WAYLAND_DEBUG': 'client'},
                                                        {'LD_LIBRARY_PATH': '/opt/lib'}, {'FOO': 'bar baz', 'EMPTY': ''}])),
     }
+    if tier == 'thorough' and index < 8:
+        cfg['calibrate_real_child'] = True       # stub fidelity: the same stream through a real `main.py -r` with a real child
+        cfg['prog'] = ['prog']
     return {'prop': ID, 'seed': seed, 'config': cfg, 'intents': intents}
+
+
+CHILD = '''
+import sys, time, os
+data = sys.stdin.buffer.read() if False else bytes.fromhex(sys.argv[1])
+sizes = [int(x) for x in sys.argv[2].split(',')]
+pos = 0
+k = 0
+sys.stdout.write('child stdout is untouched\\n'); sys.stdout.flush()
+while pos < len(data):
+    n = sizes[k % len(sizes)]; k += 1
+    os.write(2, data[pos:pos + n]); pos += n
+    time.sleep(0.002)
+sys.exit(int(sys.argv[3]))
+'''
+
+
+def calibrate_real_child(cfg, data, sim_res):
+    """run the real program with a real child process and pipe; the simulated run must have shown the same"""
+    import subprocess
+    import os
+    sizes = ','.join(str(max(1, min(w, 4096))) for w in cfg['writes'])
+    argv = ['/venv/bin/python', os.path.join(rig.REPO, 'main.py'), '-C'] + (['--supress'] if cfg['suppress'] else []) + [
+        '-r', '/venv/bin/python', '-c', CHILD, data.hex(), sizes, str(cfg['status'])]
+    r = subprocess.run(argv, input=b'quit\n', capture_output=True, timeout=120,
+                       env=dict(os.environ, PYTHONDONTWRITEBYTECODE='1', PYTHONIOENCODING='utf-8'))
+    real_out = r.stdout.decode('utf-8', 'replace').replace('wl debug $ ', '')
+    real_out_lines = [l for l in real_out.split('\n') if l != 'child stdout is untouched']
+    if real_out_lines and real_out_lines[-1] == '':
+        real_out_lines.pop()
+    sim_out = [p for s, k, p in sim_res.rec.events if k == 'out']
+    sim_out_lines = '\n'.join(sim_out).split('\n') if sim_out else []
+    real_err = [l for l in r.stderr.decode('utf-8', 'replace').split('\n') if l and not l.startswith(('WARNING:', 'ERROR:', 'INFO:'))]
+    sim_err = [p for s, k, p in sim_res.rec.events if k == 'err']
+    sim_err_lines = '\n'.join(sim_err).split('\n') if sim_err else []
+    problems = []
+
+    def canon(lines):
+        out, run = [], []
+        for l in lines + [None]:
+            if l is not None and l.startswith('Closed '):
+                run.append(l)
+            else:
+                out += sorted(run)
+                run = []
+                if l is not None:
+                    out.append(l)
+        return out
+    real_out_lines, sim_out_lines = canon(real_out_lines), canon(sim_out_lines)
+    if real_out_lines != sim_out_lines:
+        problems.append('stdout differs (index, real, simulated): %r' % (first_diff(real_out_lines, sim_out_lines),))
+    if real_err != sim_err_lines:
+        problems.append('stderr differs (index, real, simulated): %r' % (first_diff(real_err, sim_err_lines),))
+    if r.returncode != cfg['status']:
+        problems.append('real exit status %r, expected %r' % (r.returncode, cfg['status']))
+    if 'child stdout is untouched' not in r.stdout.decode('utf-8', 'replace'):
+        problems.append('child stdout did not reach our stdout')
+    return problems
 
 
 def simplifications(sc):
@@ -147,6 +208,11 @@ def execute(sc):
                 V.add('C13/exit-status', 'status', 'exit status %r, program exited with %d' % (rc.exit_code, cfg['status']))
             if thread_errors:
                 V.add('C13/display', 'thread-exception', repr(thread_errors[:2]))
+    if cfg.get('calibrate_real_child') and rc is not None and rc.exception is None and not V.list:
+        problems = calibrate_real_child(cfg, data, rc)
+        V.bump('calibration_real_child_sessions')
+        if problems:
+            raise rig.HarnessError('run-mode stub disagrees with a real child process: ' + '; '.join(problems))
     if cfg['cap'] <= 64:
         V.bump('fault_backpressure_small_pipe')
     if trace.startswith('c' * 3) and 'r' not in trace[:trace.rfind('c')]:
